@@ -411,7 +411,7 @@ def step_cast_laws():
         donors.setdefault(type(st), st)
     problems, n = [], 0
 
-    def laws(a, b, what):
+    def laws(a, b, what, print_law=True):
         nonlocal n
         n += 1
         try:
@@ -421,14 +421,14 @@ def step_cast_laws():
             return
         if bool(e1) != bool(e2):
             problems.append('%s: a == b is %r but b == a is %r (%r vs %r)' % (what, e1, e2, a, b))
-        elif e1 and repr(a) != repr(b):
+        elif e1 and print_law and repr(a) != repr(b):
             problems.append('%s: equal steps print differently: %r vs %r' % (what, a, b))
         try:
             p1, p2 = QueryPlan(steps=[a]), QueryPlan(steps=[b])
             q1, q2 = (p1 == p2), (p2 == p1)
             if bool(q1) != bool(q2):
                 problems.append('%s: plan equality not symmetric' % what)
-            elif q1 and repr(p1.steps) != repr(p2.steps):
+            elif q1 and print_law and repr(p1.steps) != repr(p2.steps):
                 problems.append('%s: equal plans print differently' % what)
         except Exception as e:  # noqa
             problems.append('%s: plan == raises %s' % (what, type(e).__name__))
@@ -445,4 +445,21 @@ def step_cast_laws():
     for i, a in enumerate(pool):
         for b in pool[i:]:
             laws(a, b, 'steps %s / %s' % (type(a).__name__, type(b).__name__))
+    # a step that holds an execution result (set_result, as an executor does): still equal to itself, and compared symmetrically with its
+    # fresh copy - whichever way the library treats the stored result
+    for st in pool:
+        done = _cp.deepcopy(st)
+        try:
+            done.set_result({'rows': [1, 2]})
+        except Exception:  # noqa
+            continue
+        n += 1
+        try:
+            if not (done == done):
+                problems.append('%s holding a result is not equal to itself' % type(st).__name__)
+            if not (QueryPlan(steps=[done]) == QueryPlan(steps=[done])):
+                problems.append('a plan whose %s holds a result is not equal to itself' % type(st).__name__)
+        except Exception as e:  # noqa
+            problems.append('%s holding a result: == raises %s' % (type(st).__name__, type(e).__name__))
+        laws(st, done, '%s and its copy holding a result' % type(st).__name__, print_law=False)    # repr shows the stored result, which is not SQL
     return n, problems, len(pool), sorted(set(type(s).__name__ for s in pool))
